@@ -66,7 +66,7 @@ def _cases(draw):
         case["how"] = draw(st.sampled_from(["values", "kw", "keys"]))
     if form == "invalid":
         case["bad"] = draw(st.sampled_from(["length", "length-short", "key-outside-grades", "grade-out-of-range", "graded-incomplete",
-                                            "graded-order"]))
+                                            "graded-order", "key-outside-grades-named", "key-outside-grades-convenience"]))
         case["g"] = draw(st.integers(0, d))
         if case["bad"].startswith("graded"):
             case["graded"] = True
@@ -350,6 +350,21 @@ def _invalid(case, alg, ref, keys, vals, labels):
         other = [k for k in range(2 ** d) if pc(k) != g]
         applicable = bool(other) and bool(gk)
         attempt = lambda: alg.multivector(values=[F(1)] * (len(gk) + 1), keys=tuple(gk + other[:1]), grades=(g,))
+    elif bad == "key-outside-grades-named":
+        # the same inconsistency in a by-name (symbolic) construction, keys as bitmasks or blade names
+        other = [k for k in range(2 ** d) if pc(k) != g]
+        applicable = bool(other) and bool(gk)
+        ks = gk[:2] + other[:1]
+        if len(keys) % 2:
+            ks = [ref.bin2name[k] for k in ks]
+        attempt = lambda: alg.multivector(name="x", keys=tuple(ks), grades=(g,))
+    elif bad == "key-outside-grades-convenience":
+        ctor, cg = [("scalar", 0), ("vector", 1), ("bivector", 2), ("trivector", 3)][g % 4]
+        other = [k for k in range(2 ** d) if pc(k) != cg]
+        applicable = bool(other) and cg <= d and hasattr(alg, ctor)
+        named = len(keys) % 2 == 0
+        attempt = (lambda: getattr(alg, ctor)(name="x", keys=(other[-1],))) if named else \
+            (lambda: getattr(alg, ctor)(values=[F(7)], keys=(other[-1],), name="s"))
     elif bad == "grade-out-of-range":
         attempt = lambda: alg.multivector(values=[F(1)], grades=(d + 1 + g,))
         applicable = True
